@@ -41,6 +41,7 @@ pub enum Event {
 }
 
 /// How the random component of a result relates to the bytes drawn.
+#[derive(Clone, Copy, PartialEq, Eq)]
 enum Image {
     /// component == first n drawn bytes
     Identity,
@@ -794,6 +795,31 @@ impl World for RngWorld {
         }
         if co.component.len() >= 16 && co.component.iter().all(|b| *b == 0) {
             out.violate("C11", "c11.nonzero", site(&[("entry", info.name), ("configuration", mode)]), format!("{} returned an all-zero {}-byte value", info.name, co.component.len()));
+        }
+        // independence inside one value: where the value is documented as raw random bytes
+        // (keys, nonces, headers, salts, key || context), no 8-byte window may occur twice
+        // (chance: < 2^-50 for values up to 128 bytes)
+        if co.image == Image::Identity && co.component.len() >= 16 && co.component.len() <= 128 {
+            out.probe("independence.evaluated");
+            let c = &co.component;
+            let n = c.len();
+            let mut hit: Option<(usize, usize)> = None;
+            'outer: for i in 0..=n - 16 {
+                for j in i + 8..=n - 8 {
+                    if c[i..i + 8] == c[j..j + 8] {
+                        hit = Some((i, j));
+                        break 'outer;
+                    }
+                }
+            }
+            if let Some((i, j)) = hit {
+                out.violate(
+                    "C11",
+                    "c11.independent",
+                    site(&[("entry", info.name), ("configuration", mode)]),
+                    format!("bytes {}..{} of the {}-byte value returned by {} are a copy of its bytes {}..{}: the parts are not independent draws", j, j + 8, n, info.name, i, i + 8),
+                );
+            }
         }
         if info.history {
             self.history.entry(*ep).or_default().push(co.component);
